@@ -111,6 +111,12 @@ def IMPORT(pkg):
     return {"import": pkg}
 
 
+def IMPORTSRC(pkg, file="lib.xml"):
+    """A schema-level <import src="package:<pkg>:<file>"/>: the types of another schema (a library that lives
+    in a generated package, so that a schema without a URL of its own can name it) are taken over."""
+    return {"importsrc": (pkg, file)}
+
+
 def _flatten_types(doc):
     """Type documents in definition order with schema-level imports replaced by the types of the component."""
     out, comps = [], []
@@ -120,6 +126,9 @@ def _flatten_types(doc):
             if td["import"] not in comps:
                 comps.append(td["import"])
                 out += packages.PKG_DOCS[td["import"]]
+        elif "importsrc" in td:
+            from . import packages
+            out += packages.LIB_DOCS[td["importsrc"]]
         else:
             out.append(td)
     return out, comps
@@ -206,6 +215,9 @@ def to_xml(doc, top="schema", extra_attrs=()):
     for td in doc["types"]:
         if "import" in td:
             out.append("  <import package=%s/>" % quoteattr(td["import"]))
+            continue
+        if "importsrc" in td:
+            out.append("  <import src=%s/>" % quoteattr("package:%s:%s" % td["importsrc"]))
             continue
         if td["abstract"]:
             out.append("  <abstracttype name=%s/>" % quoteattr(td["name"]))
